@@ -521,11 +521,19 @@ class Ovld:
     def _unbuild(self):
         """Go back to the "not built yet" state."""
         self._compiled = False
+        if "map" in vars(self):
+            # Its table (complete but out of date, or half filled by a failed
+            # build) may still be held by methods of an earlier build
+            self.map.retire(self._current_map)
         if hasattr(self, "dispatch"):
             boot = bootstrap_dispatch(self, name=self.shortname)
             self.dispatch.__code__ = boot.__code__
             self.dispatch.__defaults__ = None
             self.dispatch.__kwdefaults__ = None
+
+    def _current_map(self):
+        self.ensure_compiled()
+        return self.map
 
     def _invalidate(self):
         """Take this ovld and its linked children out of service before a change.
